@@ -602,7 +602,7 @@ def descriptor_stream(ctx, sanitize=False):
     """A FIXED corpus (seeds do not depend on --seed, so the outcome on a given tree is the same in every run):
     per family, descriptors are tried in a subprocess; after a crash the family is re-run without the crashing
     head (first component) so that every crashing head of the family is reported once."""
-    seeds, n = ((1,), 250) if ctx.tier == "quick" else ((1, 2, 3, 4, 5, 6), 400)
+    seeds, n = ((1,), 250) if ctx.tier == "quick" else ((1, 2, 3), 300)
     crashes, tried, accepted = [], 0, 0
     prog = os.path.join(ctx.scratch, "fuzz_progress%s.txt" % ("_asan" if sanitize else ""))
     for fam in FUZZ_FAMILIES:
@@ -699,7 +699,7 @@ def run(ctx):
     # --- T3 -------------------------------------------------------------------------------
     t3_ok, t3_data, t3_msg = t3(ctx)
     # --- ledger ---------------------------------------------------------------------------
-    n, maxlen = (700, 10) if ctx.tier == "quick" else (12000, 25)
+    n, maxlen = (700, 10) if ctx.tier == "quick" else (8000, 25)
     cases = corpus() + [gen_case(rnd, ctx, maxlen) for _ in range(n)]
     for c in cases[:1] + cases[-2:]:
         ctx.sample(c)
@@ -712,7 +712,7 @@ def run(ctx):
     programs = [dict(index=i, seed=rnd.randrange(1 << 30), n=nops) for i in range(npr)]
     crash_stream(ctx, programs)
     descriptor_stream(ctx)
-    nn, nlen = (150, 25) if ctx.tier == "quick" else (3000, 40)
+    nn, nlen = (150, 25) if ctx.tier == "quick" else (1500, 40)
     ncases = native_corpus() + [dict(ops=[gen_native_op(rnd) for _ in range(rnd.randint(5, nlen))]) for _ in range(nn)]
     native_stream(ctx, ncases)
     if ctx.tier == "thorough":
@@ -720,7 +720,7 @@ def run(ctx):
         ctx.build_impl(sanitize=True)
         crash_stream(ctx, programs, sanitize=True)
         descriptor_stream(ctx, sanitize=True)
-        native_stream(ctx, ncases[:600], sanitize=True, tag="native_asan")
+        native_stream(ctx, ncases[:300], sanitize=True, tag="native_asan")
         ctrait_stream(ctx, t3_data, have_gen, sanitize=True, modes=CT_MODES_C18)
         ledger_stream(ctx, cases[:len(corpus())] + cases[-2000:], sanitize=True, tag="ledger_asan")
     if not t3_ok:
